@@ -67,6 +67,8 @@ class Module:
             q = (cls + '.' if cls else '') + name
             cur_sig = equiv.build_sigdb(self.raw_functions, self.raw_classes, cls, extra)
             ref_sig = equiv.build_sigdb(ref_funcs, ref_classes, cls, extra)
+            if cls and ('rebuild', cls) in cur_sig:
+                cur_sig[('rebuild', cls)] = cur_exp.expand(cur_sig[('rebuild', cls)], cls=cls)
             ok, ta, tb = equiv.equivalent(cur, ref, cur_exp, ref_exp, cls, cur_sig, ref_sig)
             if ok:
                 self.substituted[q] = ref
@@ -119,8 +121,15 @@ def equiv_global_sigs():
                     ps = [a.arg for a in fn.args.posonlyargs + fn.args.args]
                     if meth and ps and ps[0] in ('self', 'cls'):
                         ps = ps[1:]
-                    seen.setdefault(fn.name, set()).add(tuple(ps))
-    _gsigs = {('any', k): list(next(iter(v))) for k, v in seen.items() if len(v) == 1 and None not in v}
+                    allp = fn.args.posonlyargs + fn.args.args
+                    dfl = tuple(sorted((a.arg, ast.dump(d, annotate_fields=False)) for a, d in zip(allp[len(allp) - len(fn.args.defaults):], fn.args.defaults)))
+                    seen.setdefault(fn.name, set()).add((tuple(ps), dfl))
+    _gsigs = {}
+    for k, v in seen.items():
+        if len(v) == 1 and None not in v:
+            ps, dfl = next(iter(v))
+            _gsigs[('any', k)] = list(ps)
+            _gsigs[('defaults', 'any', k)] = dict(dfl)
     return _gsigs
 
 
